@@ -4,8 +4,9 @@
 cd /verif
 for d in seeded/C*; do
   id=$(basename $d)
+  chk=$(echo $id | cut -d- -f1)
   cp $d/patch.diff /tmp/seeded-$id.diff
-  tools/mutant.sh /tmp/seeded-$id.diff $id | grep check
+  tools/mutant.sh /tmp/seeded-$id.diff $chk | grep check
   rm -f /tmp/seeded-$id.diff
 done
 for m in mutants/*.diff; do
